@@ -36,36 +36,6 @@ theorem C05_string_injective (s₁ s₂ : List Nat) (h₁ : TextString.IsBytes s
 example : TextString.IsBytes [0, 34, 92, 10, 0xC3, 0xA9, 0xFF, 0xED, 0xA0, 0x80, 0xF0, 0x9F, 0x98, 0x80] := by decide
 /-! ## 2. relative type names -/
 
-/-- The full-strength statement: whenever the target is declared, the printed name resolves to
-it. It is **false** of the code for references into another package (recorded finding
-`refname-shadowed`); for references inside one package it holds since the shadowing fix, see
-`C05_refname_same_package`. -/
-def C05_refname_resolves_full : Prop :=
-  ∀ (t : RefName.Tab) (only : Bool) (ctxPkg ctx tgtPkg tgt : RefName.Path),
-    RefName.SymtabWF t only tgtPkg tgt →
-    RefName.resolveName t ctxPkg ctx only (RefName.refName t ctxPkg ctx tgtPkg tgt) = some (tgtPkg ++ tgt)
-
-/-- witness: file of package `a.b` with `message M { b.X f = 1; }`, `X` declared in package `b`:
-the printed `b.X` is looked up as `a.b.X` because `a.b` is a package prefix in scope. -/
-def shadowTab : RefName.Tab :=
-  ⟨[⟨["a", "b", "M"], .msg⟩, ⟨["b", "X"], .msg⟩], [["a", "b"], ["b"]]⟩
-
-theorem C05_refname_counterexample : ¬ C05_refname_resolves_full := by
-  intro h
-  have hw : RefName.SymtabWF shadowTab true ["b"] ["X"] := by
-    refine ⟨by simp, ⟨.msg, by decide, by decide⟩, ?_, ?_⟩
-    · intro j h1 h2; simp at h2; omega
-    · intro i h1 h2
-      have : i = 1 := by simp at h2; omega
-      subst this; decide
-  have := h shadowTab true ["a", "b"] ["M"] ["b"] ["X"] hw
-  revert this
-  decide
-
-/-- what the witness prints, and that the reader rejects it -/
-example : RefName.refName shadowTab ["a", "b"] ["M"] ["b"] ["X"] = ⟨false, ["b", "X"]⟩ ∧
-    RefName.resolveName shadowTab ["a", "b"] ["M"] true ⟨false, ["b", "X"]⟩ = none := by decide
-
 /-- **Inside one package the statement holds at full strength**: whatever else the file declares
 (nested or sibling types, fields, methods with the same name), the printed name — shortened, or
 fully qualified when an enclosing scope would capture it — resolves to the target. -/
@@ -115,42 +85,54 @@ theorem C05_refname_same_package (t : RefName.Tab) (only : Bool) (pkg ctx tgt : 
         | some k => simp [hf] at hd
       · rw [← RefName.take_commonLen tgt ctx, List.append_assoc, ← hsc, hdrop, List.take_append_drop]
 
-/-- Across packages the printed name is package-qualified without a leading dot; it resolves
-to the target under `NoShadow` (no scope searched before the root declares — or is a package
-prefix named like — the first package component). Together with the same-package theorem this is
-the statement for every reference; `NoShadow` is the decidable predicate that excludes exactly the
-recorded class. -/
-theorem C05_refname_resolves_partial (t : RefName.Tab) (only : Bool) (ctxPkg ctx tgtPkg tgt : RefName.Path)
-    (hwf : RefName.SymtabWF t only tgtPkg tgt)
-    (hns : ctxPkg ≠ tgtPkg → RefName.NoShadow t only ctxPkg ctx tgtPkg tgt = true) :
+/-- **Full strength, every reference** (field types, map value types, method request / response
+types; the target in the same or in another package): whenever the target is declared, the printed
+name resolves to it, whatever else the file and its imports declare. Across packages the printer
+writes the package-qualified name and adds the leading dot exactly when a scope searched before the
+root — an enclosing message / the service, the own package or one of its parents — declares the
+first component (the repaired `contextRefName`; the former finding `refname-shadowed:cross-package`). -/
+theorem C05_refname_resolves (t : RefName.Tab) (only : Bool) (ctxPkg ctx tgtPkg tgt : RefName.Path)
+    (hwf : RefName.SymtabWF t only tgtPkg tgt) :
     RefName.resolveName t ctxPkg ctx only (RefName.refName t ctxPkg ctx tgtPkg tgt) = some (tgtPkg ++ tgt) := by
   by_cases hp : ctxPkg = tgtPkg
   · subst hp
     exact C05_refname_same_package t only ctxPkg ctx tgt hwf
-  · have hns' := hns hp
-    have hne := hwf.1
-    obtain ⟨hA, hnn⟩ := RefName.home_append_shortName ctxPkg ctx tgtPkg tgt hne
-    have hshort : RefName.shortName ctxPkg ctx tgtPkg tgt = tgtPkg ++ tgt := by
-      unfold RefName.shortName; simp [hp]
-    have hrn : RefName.refName t ctxPkg ctx tgtPkg tgt = ⟨false, tgtPkg ++ tgt⟩ := by
-      unfold RefName.refName; simp [hp]
-    rw [hrn]
-    unfold RefName.resolveName
-    simp only [Bool.false_eq_true, if_false]
-    unfold RefName.NoShadow at hns'
-    rw [hshort] at hns' hA
+  · unfold RefName.refName
+    simp only [ne_eq, hp, not_false_eq_true, if_true]
     cases hname : tgtPkg ++ tgt with
-    | nil => rw [hname] at hshort; exact absurd hshort hnn
+    | nil =>
+      have := congrArg List.length hname
+      have hl : 0 < tgt.length := List.length_pos_iff.mpr hwf.1
+      simp only [List.length_append, List.length_nil] at this; omega
     | cons first rest =>
-      rw [hname] at hns' hA
-      simp only [List.all_eq_true, Bool.not_eq_true'] at hns'
-      obtain ⟨outer, hsplit⟩ := RefName.split_at_mem (RefName.home ctxPkg ctx tgtPkg tgt) _
-        (RefName.home_mem_scopes ctxPkg ctx tgtPkg tgt)
-      rw [← hname]
-      have hfull : RefName.home ctxPkg ctx tgtPkg tgt ++ first :: rest = tgtPkg ++ tgt := by
-        rw [hA, hname]
-      have := RefName.resolve_of_split t only ctxPkg ctx tgtPkg tgt _ first rest _ outer hwf hsplit hns' hfull
-      rw [hname]; rw [hname] at this; exact this
+      simp only []
+      split
+      · rw [← hname]; exact RefName.resolveName_abs t only ctxPkg ctx tgtPkg tgt hwf
+      · rename_i hany
+        unfold RefName.resolveName
+        simp only [Bool.false_eq_true, if_false]
+        rw [← hname] 
+        have := RefName.resolve_cross t only ctxPkg ctx tgtPkg tgt first rest hwf hname (by
+          intro pre hpre
+          simp only [List.any_eq_true, not_exists, not_and, Bool.not_eq_true] at hany
+          exact hany pre hpre)
+        rw [hname]; rw [hname] at this; exact this
+
+/-- the witness of the former finding: file of package `a.b` with `message M { b.X f = 1; }`, `X`
+declared in package `b`. `b.X` would be looked up as `a.b.X`; the printer now writes `.b.X`. -/
+def shadowTab : RefName.Tab :=
+  ⟨[⟨["a", "b", "M"], .msg⟩, ⟨["b", "X"], .msg⟩], [["a", "b"], ["b"]]⟩
+
+example : RefName.refName shadowTab ["a", "b"] ["M"] ["b"] ["X"] = ⟨true, ["b", "X"]⟩ ∧
+    RefName.resolveName shadowTab ["a", "b"] ["M"] true ⟨true, ["b", "X"]⟩ = some ["b", "X"] ∧
+    RefName.resolveName shadowTab ["a", "b"] ["M"] true ⟨false, ["b", "X"]⟩ = none := by decide
+
+example : RefName.SymtabWF shadowTab true ["b"] ["X"] := by
+  refine ⟨by simp, ⟨.msg, by decide, by decide⟩, ?_, ?_⟩
+  · intro j h1 h2; simp at h2; omega
+  · intro i h1 h2
+    have : i = 1 := by simp at h2; omega
+    subst this; decide
 
 /-! non-vacuity: a three-level file where the hypotheses hold and the name is really shortened -/
 
@@ -158,9 +140,8 @@ def okTab : RefName.Tab :=
   ⟨[⟨["p", "A"], .msg⟩, ⟨["p", "A", "B"], .msg⟩, ⟨["p", "A", "B", "C"], .enum⟩, ⟨["p", "A", "D"], .msg⟩,
     ⟨["q", "r", "X"], .msg⟩], [["p"], ["q", "r"]]⟩
 
-example : RefName.NoShadow okTab true ["p"] ["A", "D"] ["p"] ["A", "B", "C"] = true := by decide
 example : RefName.refName okTab ["p"] ["A", "D"] ["p"] ["A", "B", "C"] = ⟨false, ["B", "C"]⟩ := by decide
-example : RefName.SymtabWF okTab true ["p"] ["A", "B", "C"] := by
+theorem okTab_wf : RefName.SymtabWF okTab true ["p"] ["A", "B", "C"] := by
   refine ⟨by simp, ⟨.enum, by decide, by decide⟩, ?_, ?_⟩
   · intro j h1 h2
     have : j = 1 ∨ j = 2 := by simp at h2; omega
@@ -169,7 +150,7 @@ example : RefName.SymtabWF okTab true ["p"] ["A", "B", "C"] := by
     have : i = 1 := by simp at h2; omega
     subst this; decide
 /-- cross-package reference, printed package-qualified -/
-example : RefName.NoShadow okTab true ["p"] ["A", "D"] ["q", "r"] ["X"] = true ∧
+example :
     RefName.refName okTab ["p"] ["A", "D"] ["q", "r"] ["X"] = ⟨false, ["q", "r", "X"]⟩ := by decide
 /-- self reference and reference to an ancestor keep the type's own name (fix b1156d6) -/
 example : RefName.refName okTab ["p"] ["A", "B"] ["p"] ["A", "B"] = ⟨false, ["B"]⟩ ∧
@@ -363,14 +344,11 @@ theorem allSome_map {α β} (f : α → Option β) (g : α → β) :
 
 /-- **Whole-file statement, partial.** For every reader that treats kernel outputs as assumed
 above: reading the printed file gives back every referenced type and every string value, provided
-each reference is well-formed and not shadowed. Partial because (i) the reader's grammar level is
-an assumption, (ii) for references into other packages `NoShadow` excludes the recorded finding
-`refname-shadowed:cross-package`, (iii) comments,
-layout, element order, numeric scalars and option structure are outside this statement (order and
+each referenced type is declared. Partial because (i) the reader's grammar level is
+an assumption, (ii) comments, layout, element order, numeric scalars and option structure are outside this statement (order and
 option trees have their own theorems above; the rest is covered by the `print.reparse` oracle). -/
 theorem C05_reparse_partial (R : Reader) (f : KFile)
-    (hrefs : ∀ r ∈ f.refs, RefName.SymtabWF f.tab r.only r.tgtPkg r.tgt ∧
-      (r.ctxPkg ≠ r.tgtPkg → RefName.NoShadow f.tab r.only r.ctxPkg r.ctx r.tgtPkg r.tgt = true))
+    (hrefs : ∀ r ∈ f.refs, RefName.SymtabWF f.tab r.only r.tgtPkg r.tgt)
     (hstr : ∀ s ∈ f.strings, TextString.IsBytes s) :
     R.read f.tab (printK f) = some (f.refs.map (fun r => r.tgtPkg ++ r.tgt), f.strings) := by
   rw [R.spec]
@@ -382,7 +360,7 @@ theorem C05_reparse_partial (R : Reader) (f : KFile)
       some (f.refs.map (fun r => r.tgtPkg ++ r.tgt)) := by
     apply allSome_map
     intro r hr
-    exact C05_refname_resolves_partial f.tab r.only r.ctxPkg r.ctx r.tgtPkg r.tgt (hrefs r hr).1 (hrefs r hr).2
+    exact C05_refname_resolves f.tab r.only r.ctxPkg r.ctx r.tgtPkg r.tgt (hrefs r hr)
   have h2 : allSome (f.strings.map (TextString.unescape ∘ TextString.textString)) = some (f.strings.map id) := by
     apply allSome_map
     intro s hs
@@ -393,8 +371,7 @@ theorem C05_reparse_partial (R : Reader) (f : KFile)
 /-- Printing what was read reproduces the same names and literals (the kernel part of "printing
 that result again reproduces the same text"). -/
 theorem C05_reprint_fixed (R : Reader) (f : KFile)
-    (hrefs : ∀ r ∈ f.refs, RefName.SymtabWF f.tab r.only r.tgtPkg r.tgt ∧
-      (r.ctxPkg ≠ r.tgtPkg → RefName.NoShadow f.tab r.only r.ctxPkg r.ctx r.tgtPkg r.tgt = true))
+    (hrefs : ∀ r ∈ f.refs, RefName.SymtabWF f.tab r.only r.tgtPkg r.tgt)
     (hstr : ∀ s ∈ f.strings, TextString.IsBytes s)
     (tgts : List RefName.Path) (strs : List (List Nat))
     (hread : R.read f.tab (printK f) = some (tgts, strs)) :
@@ -415,10 +392,22 @@ def specReader : Reader :=
     | some a, some b => some (a, b)
     | _, _ => none, fun _ _ => rfl⟩
 
+theorem okTab_wf_cross : RefName.SymtabWF okTab true ["q", "r"] ["X"] := by
+  refine ⟨by simp, ⟨.msg, by decide, by decide⟩, ?_, ?_⟩
+  · intro j h1 h2; simp at h2; omega
+  · intro i h1 h2
+    have : i = 1 ∨ i = 2 := by simp at h2; omega
+    rcases this with rfl | rfl <;> decide
+
 example : ∃ f : KFile, f.refs.length = 2 ∧ f.strings = [[0, 34, 0xFF], [0xC3, 0xA9]] ∧
-    (∀ r ∈ f.refs, r.ctxPkg ≠ r.tgtPkg → RefName.NoShadow f.tab r.only r.ctxPkg r.ctx r.tgtPkg r.tgt = true) ∧
+    (∀ r ∈ f.refs, RefName.SymtabWF f.tab r.only r.tgtPkg r.tgt) ∧
     (∀ s ∈ f.strings, TextString.IsBytes s) :=
   ⟨⟨okTab, [⟨true, ["p"], ["A", "D"], ["p"], ["A", "B", "C"]⟩, ⟨true, ["p"], ["A", "D"], ["q", "r"], ["X"]⟩],
-    [[0, 34, 0xFF], [0xC3, 0xA9]]⟩, rfl, rfl, by decide, by decide⟩
+    [[0, 34, 0xFF], [0xC3, 0xA9]]⟩, rfl, rfl, by
+      intro r hr
+      simp only [List.mem_cons, List.not_mem_nil, or_false] at hr
+      rcases hr with rfl | rfl
+      · exact okTab_wf
+      · exact okTab_wf_cross, by decide⟩
 
 end J5V.Props.C05
